@@ -31,7 +31,11 @@ symbolic strings of the stated lengths.
 Regions (known findings; switched on by known_findings.json):
   C09-hash-comment        `#` outside quotes starts a shlex comment
   C09-unicode-space       U+00A0 (and other str.isspace() characters that are no separators) as a token
-  C09-concat-quote-type   a token that mixes hard-quoted and other fragments and contains a reference
+  C09-concat-quote-type   a token of adjacent fragments whose first fragment is hard-quoted while a later fragment of
+                          another form contains a reference, or whose first fragment is not hard-quoted while a later
+                          hard-quoted fragment contains a reference (exactly the tokens on which "the first character
+                          decides for the whole token" differs from the documentation; `'@[X]@'.txt`, `"@[X]@"'b'`,
+                          `x"@[X]@"'b'` are NOT in the region and are checked)
   C09-shlex-eof-state     raw-line consumption (here-document, `:>`) where a look-ahead token that starts inside
                           the raw lines is closed by the very last character of the source: shlex stays in its
                           end-of-file state and the tokens after the raw lines are not seen
@@ -759,7 +763,7 @@ def _pre_k3(h: str, va: str, vb: str) -> bool:
         # a reference that is split over two adjacent fragments: outside the claim (undocumented)
         if ref.reference_straddles(parts) or _glued_special(toks[0]):
             return False
-        if ob.excluded(REGION_MIXED) and ref.is_mixed_hard(parts) and ref.n_refs(toks[0].string) > 0:
+        if ob.excluded(REGION_MIXED) and ref.first_fragment_decides_wrongly(parts):
             return False
     return True
 
@@ -799,7 +803,12 @@ def _k3_check(s: str, va: str, vb: str) -> bool:
     if want_error:
         return False
     t0 = toks[0]
-    pieces = _pieces_of_parts(t0.parts, soft_protects=bug)  # seeded oracle error: soft quotes protect too
+    if c.get('oracle_bug') == 'first-hard-unprotected':
+        # seeded oracle error (K3:mix): a hard-quoted fragment followed by a fragment of another form is substituted
+        pieces = (_merge(ref.split_refs(t0.string)) if ref.is_mixed_hard(t0.parts)
+                  else _pieces_of_parts(t0.parts))
+    else:
+        pieces = _pieces_of_parts(t0.parts, soft_protects=bug)  # seeded oracle error: soft quotes protect too
     if not _sdv_agrees(sdv, pieces, va, vb):
         return False
     return _after_token_ok(ts, s, toks, err, 1, t0.end)
@@ -843,11 +852,41 @@ K3_THOROUGH = [
 ]
 
 
+# Tokens that mix hard-quoted fragments with fragments of the other forms AND contain reference syntax, where
+# the references stand only in fragments of the first fragment's kind (so the tokens are outside the region
+# C09-concat-quote-type whatever the holes are, except where a hole closes / opens a quotation): reference-like
+# text inside leading hard quotes followed by naked / soft-quoted / empty fragments, references in leading soft
+# or naked fragments followed by hard-quoted fragments, three fragments, each parser entry, symbolic values.
+K3MIX_QUICK = [
+    # hard-quoted reference text first; what follows has no reference
+    "'@[A]@'&& a", "'&@[A]@'\"&\"&", "'@[A]@'&'@[B]@'", "'@[A]@&'\"&\"'@[B]@'", "'@[%]@'&&",
+    # references in soft-quoted / naked fragments; the hard-quoted fragments have none
+    "\"@[A]@\"'&'&", "@[A]@'&'\"@[B]@\"", "&@[A]@'&'@[B]@", "\"&@[A]@\"&'&'",
+    # the other parser entries
+    ("'@[A]@'&& ^", dict(entry='rich')), ("'@[A]@'& ^", dict(entry='either')),
+    ("a@[A]@'&' ^", dict(entry='either')), ("\"@[A]@\"'&'^", dict(entry='rich')),
+    # symbolic symbol values
+    ("'@[A]@'&\"&\"", dict(symvalues=(1, 0))), ("@[A]@'&'\"@[B]@\"", dict(symvalues=(1, 1))),
+]
+K3MIX_THOROUGH = [
+    "'&@[A]@&'&& a", "'@[A]@'&\"&\"&'@[B]@'", "&&@[A]@'&&'\"@[B]@\"&", "'@[%%]@'&&", "'%@[%]@%'&",
+    ("'@[A]@@[B]@'&&", dict(symvalues=(2, 1))),
+]
+
+
 def _k3_obligations(tier: str) -> List[Ob]:
     obs = _mask_obs(tier, 'K3:', K3_QUICK, K3_THOROUGH, fn='k3_denote', kernel='K3', real=REAL_K3,
                     entry='parse_string.parse_string_from_token_parser(new_token_parser(source)) '
                           '[entry=rich: RichStringParser, entry=either: SymbolReferenceOrStringParser]',
                     stubs=(STUB_IO,), outside=K3_OUTSIDE, bound_suffix=_values_bound())
+    obs += _mask_obs(tier, 'K3:mix:', K3MIX_QUICK, K3MIX_THOROUGH, fn='k3_denote', kernel='K3', real=REAL_K3,
+                     entry='parse_string.parse_string_from_token_parser(new_token_parser(source)) '
+                           '[entry=rich: RichStringParser, entry=either: SymbolReferenceOrStringParser]',
+                     stubs=(STUB_IO,), outside=K3_OUTSIDE, bound_suffix=_values_bound(), timeout=300)
+    obs.append(Ob(name='K3:mix:seeded-oracle-error', fn='k3_denote',
+                  case=dict(mask="'@[A]@'&&", oracle_bug='first-hard-unprotected'), kernel='K3',
+                  bound='seeded oracle error: hard quotes protect only if the whole token is hard-quoted',
+                  timeout=300, expect=ob.REFUTE, real=REAL_K3, stubs=(STUB_IO,)))
     obs.append(Ob(name='K3:seeded-oracle-error', fn='k3_denote', case=dict(mask='"@[A]@"&', oracle_bug=True),
                   kernel='K3', bound='seeded oracle error: soft quotes protect references too', timeout=300,
                   expect=ob.REFUTE, real=REAL_K3, stubs=(STUB_IO,)))
@@ -1083,7 +1122,7 @@ def _pre_k5l(h: str, va: str, vb: str) -> bool:
     for t in toks:
         if ref.reference_straddles(t.parts) or _glued_special(t):
             return False
-        if ob.excluded(REGION_MIXED) and ref.is_mixed_hard(t.parts) and ref.n_refs(t.string) > 0:
+        if ob.excluded(REGION_MIXED) and ref.first_fragment_decides_wrongly(t.parts):
             return False
     return True
 
